@@ -337,6 +337,7 @@ type call struct {
 	notifySeq uint64
 	ctx       *common.Ctx
 	inflight  int // shutdown: handlers in flight at return
+	invFlight int // shutdown: calls of the application's MsgInvalidFunc in flight at return
 	openConns int // shutdown: accepted connections the server had not closed yet at return
 }
 
@@ -372,6 +373,24 @@ type run struct {
 	drainFin   bool
 	entered    int
 	exited     int
+	invEntered int // calls of the application's MsgInvalidFunc
+	invExited  int
+}
+
+// invalidCB is the application's MsgInvalidFunc: a log line, a metric - it takes a while. The server that called it is
+// not done before it has returned.
+//
+//go:norace
+func (x *run) invalidCB(m []byte, err error) {
+	k := x.k
+	k.Lock()
+	x.invEntered++
+	k.BumpLocked("probe.invalid_callback_entered")
+	k.Unlock()
+	k.WaitSteps("invalid.cb", 4+int(x.sc.RunSeed%9), 3*time.Millisecond)
+	k.Lock()
+	x.invExited++
+	k.Unlock()
 }
 
 //go:norace
@@ -722,6 +741,7 @@ func (x *run) shutdown(c *call, kind string, ctxMs int) {
 	k.Lock()
 	c.ret, c.retSeq, c.retT, c.err = true, k.Seq, time.Now(), common.ErrStr(err)
 	c.inflight = x.entered - x.exited
+	c.invFlight = x.invEntered - x.invExited
 	for _, sc := range x.n.Conns {
 		if sc.Role == "srv" && sc.Accepted && !sc.Frozen && !sc.IsClosed() {
 			c.openConns++
@@ -1143,6 +1163,9 @@ func runLife(sc *Scenario, res *core.Result, k *kernel.K, n *simnet.Net, x *run,
 		srv.ReadTimeout = time.Hour
 		srv.IdleTimeout = hourIdle
 	}
+	if sc.RunSeed%2 == 0 {
+		srv.MsgInvalidFunc = x.invalidCB // (the other half of the runs leaves the default)
+	}
 	if sc.Decorate {
 		slow := []time.Duration{0, 0, time.Millisecond, 50 * time.Millisecond}[sc.RunSeed%4]
 		srv.DecorateReader = (&common.Decorator{K: k, Slow: slow}).Decorate
@@ -1414,6 +1437,10 @@ func (x *run) judge(outcome string) {
 		res.Bump("oracle.S1_drain")
 		if acc.inflight != 0 {
 			res.Fail("S1", "return-with-handlers-in-flight", "%s returned nil with %d handler(s) still running", acc.name, acc.inflight)
+		}
+		res.Bump("oracle.S7_no_callback_left_running")
+		if acc.invFlight != 0 && res.Verdict == core.OK {
+			res.Fail("S7", "callback-running-after-shutdown", "%s returned nil while the server was still inside %d call(s) of the application's MsgInvalidFunc: a goroutine of the server is left running application code", acc.name, acc.invFlight)
 		}
 	} else if acc.inflight > 0 {
 		res.Bump("probe.ctx_expired_with_handlers_in_flight")
